@@ -234,6 +234,34 @@ def run_impl(prop, cases, workdir, jobs=JOBS, timeout_s=None, cov_out=None, _ret
         p = subprocess.Popen([PY, "-B", os.path.join(HERE, "impl_runner.py"), prop, inp, outp], cwd=workdir, env=env,
                              stdout=subprocess.PIPE, stderr=subprocess.STDOUT, text=True)
         procs.append((p, outp, sh))
+    # watchdog: a child whose heartbeat file stands still for several per-case limits has wedged itself (the alarm can interrupt
+    # it while a lock is held); it is stopped, what it did not evaluate is evaluated again in fresh children like a timeout
+    try:
+        import importlib
+        limit = float(os.environ.get("VERIF_CASE_TIMEOUT_S") or getattr(importlib.import_module("props." + prop.lower()), "CASE_TIMEOUT_S", 20))
+    except Exception:  # noqa: BLE001
+        limit = 20.0
+    stall = 3 * limit * (6 if _retry else 1) + 90
+    stalled = set()
+    alive = {id(p): p for p, _, _ in procs}
+    last = {id(p): time.time() for p, _, _ in procs}
+    while alive:
+        time.sleep(1.0)
+        now = time.time()
+        for p, outp, _ in procs:
+            if id(p) not in alive:
+                continue
+            if p.poll() is not None:
+                del alive[id(p)]
+                continue
+            try:
+                last[id(p)] = max(last[id(p)], os.path.getmtime(outp + ".hb"))
+            except OSError:
+                pass
+            if now - last[id(p)] > stall:
+                p.kill()
+                stalled.add(id(p))
+                del alive[id(p)]
     recs_by_shard = []
     for p, outp, sh in procs:
         out, _ = p.communicate()
@@ -246,7 +274,11 @@ def run_impl(prop, cases, workdir, jobs=JOBS, timeout_s=None, cov_out=None, _ret
             for r in recs:
                 if r["id"] in second:
                     r["second_pass"] = second[r["id"]]
-        if p.returncode == 75:
+        if id(p) in stalled:
+            log("impl: a child stood still for %.0f s and was stopped; the %d case(s) it had not finished are evaluated again" % (stall, len(sh) - len(recs)))
+            for c in sh[len(recs):]:
+                recs.append({"id": c["id"], "crash": "harness timeout: not evaluated, the child stood still and was stopped"})
+        elif p.returncode == 75:
             # the child stopped itself after a per-case timeout (impl_runner.py): the rest of its shard is evaluated below
             for c in sh[len(recs):]:
                 recs.append({"id": c["id"], "crash": "harness timeout: not evaluated, the child stopped after an earlier timeout"})
